@@ -613,13 +613,13 @@ func (g *G) hdBody(op, delim string, quoted bool) string {
 			pool = 26
 		}
 		if g.S.Chance(1, 12) {
-			pool = 36 // includes the rare lines 26..35 (and, for C18/C01 only, 24/25 when allowed)
+			pool = 37 // includes the rare lines 26..36 (and, with HDMultiLine only, 24/25/36)
 		}
 		if g.O.HeredocBodyPool == 1 {
 			pool = 4
 		}
 		k := g.S.Intn(pool)
-		if (k == 24 || k == 25) && !(g.O.HDMultiLine && !quoted) {
+		if (k == 24 || k == 25 || k == 36) && !(g.O.HDMultiLine && !quoted) {
 			k = 0
 		}
 		switch k {
@@ -675,6 +675,8 @@ func (g *G) hdBody(op, delim string, quoted bool) string {
 			} else {
 				line = "$x " + delim
 			}
+		case 36:
+			line = "sub $(a\n" + delim + "\nb c) end" // a line equal to the delimiter INSIDE a multi-line substitution does not end the body
 		case 35:
 			line = "\t\t" // tabs only
 		case 34:
